@@ -533,7 +533,8 @@ def run_check(prop, tier, seed, replay=None):
     if not replay:
         keys = set()
         for r in results:
-            k = prop.nontrivial(r.case)
+            # the rule may speak about what was observed (at least one accepted and one rejected value, ...)
+            k = prop.nontrivial_obs(r.case, r.obs) if hasattr(prop, 'nontrivial_obs') else prop.nontrivial(r.case)
             if k is not None:
                 keys.add(hashlib.sha1(k.encode()).hexdigest() if isinstance(k, str) else k)
         obligations = len(prop.required_theorems)
